@@ -195,7 +195,11 @@ def check(case: dict[str, Any]) -> list[tuple[str, str]]:
     except Exception as e:  # noqa: BLE001
         out.append((f"{P}/from_pdu-raises/{type(e).__name__}" + _shape(name, kw), f"{name}.from_pdu({pdu.hex()[:80]}) raised {type(e).__name__}: {e}"))
     # dynamic parser
-    dyn = service.UDSRequest.parse_dynamic(pdu)
+    try:
+        dyn = service.UDSRequest.parse_dynamic(pdu)
+        dyn.pdu
+    except Exception as e:  # noqa: BLE001
+        return out + [(f"{P}/parse_dynamic-raises/{type(e).__name__}", f"parse_dynamic({pdu.hex()[:80]}) raised {type(e).__name__}: {e}")]
     if isinstance(dyn, service.RawRequest):
         out.append((f"{P}/degraded-to-raw" + _shape(name, kw), f"parse_dynamic({pdu.hex()[:80]}) -> RawRequest"))
     else:
@@ -203,6 +207,28 @@ def check(case: dict[str, Any]) -> list[tuple[str, str]]:
             out.append((f"{P}/parse_dynamic-other-bytes", f"{dyn.pdu.hex()[:80]} != {pdu.hex()[:80]}"))
         elif type(dyn) is cls and _norm_attrs(name, pub(dyn)) != _norm_attrs(name, pub(obj)):
             out.append((f"{P}/parse_dynamic-other-fields", f"{_short(pub(dyn))} != {_short(pub(obj))}"))
+    # every parse yields the request the bytes describe, also after the holder of an earlier result has reused that object (changed
+    # its fields)
+    if not out and not isinstance(dyn, service.RawRequest):
+        for k, v in list(vars(dyn).items()):
+            try:
+                if isinstance(v, bool):
+                    continue
+                if isinstance(v, int):
+                    setattr(dyn, k, (v + 1) & 0xFF)
+                elif isinstance(v, (bytes, bytearray)):
+                    setattr(dyn, k, b"\xde\xad" + bytes(v))
+                elif isinstance(v, list):
+                    v.append(v[0] if v else 1)
+            except Exception:  # noqa: BLE001
+                pass
+        try:
+            again = service.UDSRequest.parse_dynamic(bytes(pdu))
+            if bytes(again.pdu) != pdu or type(again) is not type(dyn):
+                out.append((f"{P}/parse_dynamic-depends-on-earlier-results", f"second parse_dynamic({pdu.hex()[:80]}) -> {type(again).__name__} {bytes(again.pdu).hex()[:80]} "
+                            "after the first result had been modified by its holder"))
+        except Exception as e:  # noqa: BLE001
+            out.append((f"{P}/parse_dynamic-depends-on-earlier-results", f"second parse_dynamic({pdu.hex()[:80]}) raised {type(e).__name__}: {e}"))
     # a request is fixed by the values it was built with: what the caller later does with the list objects it passed in (reuse for
     # the next request, append, overwrite) must not reach into the request
     lists = {k: list(v) for k, v in kw.items() if isinstance(v, list)}
